@@ -41,7 +41,9 @@ def wellformed(rng):
     if rng.random() < 0.1 and body: body = b'\x00' + body[1:]
     hs = []
     for _ in range(rng.choice([0, 1, 2, 4, 8])):
-        if rng.random() < 0.6: hs.append((recase(rng, rng.choice(STD)), hval()))
+        r = rng.random()
+        if r < 0.35: hs.append((recase(rng, rng.choice(STD)), hval()))
+        elif r < 0.6: hs.append((recase(rng, rng.choice(all_std())), hval()))      # any name of the source table, any case
         else: hs.append((rng.choice(CUS), hval()))
     if body or rng.random() < 0.2:
         cl = str(len(body))
@@ -69,6 +71,10 @@ def malformed(rng):
     return bytes(b)
 
 
+def all_std():
+    return [canon for _, canon, _ in std_table() if canon != 'Content-Length']
+
+
 def mk(raw, rng=None, cut=None):
     if not raw: raw = b'G'
     c = min(len(raw), BUF)
@@ -90,6 +96,13 @@ def corpus():
          b'POST /x HTTP/1.1\r\nContent-Length: 10\r\n\r\nabc',                         # was: read_exact panic on EOF
          b'POST /x HTTP/1.1\r\nContent-Length: 3\r\n\r\n\x00bc',                       # was: NUL sentinel
          b'GET / HTTP/1.1\r\n\r\n', b'GET /a/ HTTP/1.1\r\n\r\n', b'GET /a?x=1&y=%20 HTTP/1.1\r\nAccept: a\r\naccept: b\r\nACCEPT: c\r\n\r\n']
+    # every standard name of the table in four spellings, once alone and once repeated in two spellings
+    def flip(s): return ''.join(ch.lower() if i % 2 else ch.upper() for i, ch in enumerate(s))
+    for _, canon, low in std_table():
+        if canon == 'Content-Length': continue
+        for sp in (canon, low, canon.upper(), flip(canon)):
+            W.append(f'GET /h HTTP/1.1\r\n{sp}: v1\r\n\r\n'.encode())
+        W.append(f'GET /h HTTP/1.1\r\n{canon.upper()}: v1\r\nX-A: z\r\n{flip(canon)}: v2\r\n{low}: v3\r\n\r\n'.encode())
     return [mk(w) for w in W]
 
 
